@@ -83,6 +83,17 @@ def R1_range_fields(run):
             if anchor:
                 zs = [w for w in writes.field_stores(facts) if w["fn"] is fn and w["field"] in ("fee_growth_checkpoint_a", "fee_growth_checkpoint_b", "growth_inside_checkpoint") and w["last"]]
                 ok = {w["field"] for w in zs} == {"fee_growth_checkpoint_a", "fee_growth_checkpoint_b", "growth_inside_checkpoint"} and all(const_val(pv._rvalue(w["rv"], w["block"], w["stmt"], 0)) == 0 for w in zs)
+                # ... into the position itself: the stored-to place is rooted at `self`, directly or through a `&mut` taken from it
+                # (`for mut r in self.reward_infos { r.x = 0 }` zeroes a copy of the array)
+                for w in zs:
+                    st_ = fn.blocks[w["block"]]["s"][w["stmt"]]
+                    l_ = st_["p"]["l"]
+                    if l_ == 1:
+                        continue
+                    through_ref = fn.locals[l_]["t"].startswith("&mut") and st_["p"]["p"][:1] == ["*"] and \
+                        mentions(pv.local(l_, w["block"], w["stmt"]), lambda t: t[0] == "param" and t[1] == "self")
+                    if not through_ref:
+                        ok = False
             else:
                 zc = calls_to(fn, lambda p: p in (MP + "::set_fee_growth_checkpoint_a", MP + "::set_fee_growth_checkpoint_b"))
                 # the reward checkpoints (reset_reward_growth_checkpoints is read spliced into this function): every element of
